@@ -270,6 +270,43 @@ def pure_protocol(rep, tier):
         d = statefp.diff(M.base, statefp.state_fp())
         require(rep, not d, "%s: state equals the post-import snapshot after all explored paths %s" % (suite, d[:3]), None, {"kind": "c20_purity", "args": {"what": suite}})
 
+        # ground pass: the same API sequence on concrete arguments (keys of dicts / sets keyed by the arguments become concrete,
+        # which the symbolic pass cannot follow), twice, under the state fingerprint
+        def ground(S=S, suite=suite):
+            from eth_utils import ValidationError
+            out = []
+            with core.Ctx():
+                W = World()
+                with world.patched(cs, **W.bindings()):
+                    base = statefp.state_fp()
+                    for sk_ in (3, 3, 5, cs.curve_order - 1):
+                        pk = S.SkToPk(sk_)
+                        s = S.Sign(sk_, b"msg")
+                        r1 = bool(S.Verify(pk, b"msg", s))
+                        r2 = bool(S.Verify(pk, b"msg", s))
+                        r3 = bool(S.AggregateVerify([pk], [b"msg"], s))
+                        if suite == "G2ProofOfPossession":
+                            bool(S.PopVerify(pk, S.PopProve(sk_)))
+                            bool(S.FastAggregateVerify([pk], b"msg", s))
+                        out.append((r1, r2, r3))
+                    for bad_sk in (0, -1, cs.curve_order, 3.0):
+                        for fn_ in (lambda: S.SkToPk(bad_sk), lambda: S.Sign(bad_sk, b"msg")):
+                            try:
+                                fn_()
+                                out.append(("accepted", repr(bad_sk)))
+                            except (ValidationError, TypeError):
+                                pass
+                    after = statefp.state_fp()
+            return statefp.diff(base, after), out
+        try:
+            d, out = ground()
+            rpg = {"kind": "c20_purity", "args": {"what": suite}}
+            require(rep, not d, "%s: the API sequence on concrete keys and messages (repeated, incl. refused keys 0, -1, r, 3.0) leaves module state unchanged %s" % (suite, d[:3]), None, rpg)
+            require(rep, all(o == out[0] for o in out[:4]) and not [o for o in out if o[0] == "accepted"],
+                    "%s: repeated concrete calls give identical answers; refused keys stay refused after valid calls %s" % (suite, [o for o in out if o[0] == "accepted"][:2]), None, rpg)
+        except core.Unsupported as e:
+            rep.unknown("%s ground pass: %s" % (suite, e))
+
         # calls that REFUSE their input (ValidationError) must leave no trace either: sk is ANY integer here
         def run_bad(ctx, S=S, suite=suite):
             from eth_utils import ValidationError
